@@ -1194,7 +1194,7 @@ class Arithmetic(Expr):
             if word in env and type(env[word]) == int:
                 return '({})'.format(env[word])
             # not in these tables: Python must not find something else under that spelling
-            if word not in env and ('.' in word or unicodedata.normalize('NFKC', word) != word):
+            if word not in env and ('.' in word or word == '__debug__' or unicodedata.normalize('NFKC', word) != word):
                 raise AssemblerError('unknown variable in expr: "{}"'.format(self.expr), line)
             return word
         expr = re.sub(r'''[^\s()\[\]{}+\-*/%&|^~<>=!,:;'"@#]+''', named, expr)
